@@ -29,7 +29,9 @@
       [left_assoc], [unary_binds_tighter], [union_binds_tightest],
       [other_grouping_needs_parentheses]; [parse_spell_partial_operators] is the first rung of
       the ladder (kept for reference).
-    - [xpath_parse_terminates]: the parser half of C06 (no input exhausts the fuel).
+    - the parser half of C06: [xpath_parse_terminates] (no input exhausts the fuel) and
+      [parse_expr_total] / [parse_expr_never_panics] (on every string: a tree or a syntax error;
+      no [unreachable!()] arm is reached).  The cost bound is established by the check only.
 
     MISSING: [spelling_irrelevant].  It follows from [parse_spell] once the evaluator model
     (Model/XPathEval.v, property C05) is shown to respect [≈]; until then that half is
@@ -40,7 +42,7 @@
     proved: [every_tree_has_a_spelling], [parse_spell_minimal]. *)
 From Coq Require Import List NArith Arith Bool.
 From XmlRs Require Import Base.CPred Spec.XPathSyntax Model.Peg Model.XPathAst
-  Model.ParseActionsXPath Model.XPathAstAbs Proofs.XPathParseExpr Proofs.XPathParseMain Proofs.XPathSyntaxLemmas Proofs.XPathParsePrecedence.
+  Model.ParseActionsXPath Model.XPathAstAbs Proofs.XPathParseExpr Proofs.XPathParseMain Proofs.XPathSyntaxLemmas Proofs.XPathParsePrecedence Proofs.XPathParseTotal.
 Import ListNotations.
 
 (** the parser of XPath expressions terminates on every input (parser half of C06) *)
@@ -49,6 +51,16 @@ Proof. exact xpath_parse_terminates_proof. Qed.
 
 Theorem xpath_parse_never_oof : forall s : str, parse_expr s <> POof.
 Proof. exact xpath_parse_never_oof_proof. Qed.
+
+(** ... and never panics: on EVERY string the parser answers a tree or a syntax error; none of the
+    [unreachable!()] arms of expr/model.rs is reachable, no [map] function is applied to a value
+    of the wrong type (parser half of C06, for the model of [expr::parse]) *)
+Theorem parse_expr_total : forall s : str, (exists e r, parse_expr s = POk e r) \/ parse_expr s = PErr.
+Proof. exact XPathParseTotal.parse_expr_total. Qed.
+
+Theorem parse_expr_never_panics : forall s : str,
+  parse_expr s <> PPanic /\ parse_expr s <> PBad /\ parse_expr s <> POof.
+Proof. exact XPathParseTotal.parse_expr_never_panics. Qed.
 
 (** the surface round trip: what was spelled is what is parsed *)
 Theorem parse_spell_surface : forall (a : xexpr) (w : wtree),
@@ -140,6 +152,8 @@ Theorem fname_case_refuted : exists f : xqname,
 Proof. exact fname_case_refuted_proof. Qed.
 
 Print Assumptions xpath_parse_terminates.
+Print Assumptions parse_expr_total.
+Print Assumptions parse_expr_never_panics.
 Print Assumptions parse_spell_surface.
 Print Assumptions parse_spell.
 Print Assumptions every_tree_has_a_spelling.
